@@ -40,6 +40,10 @@ FILES = {
     "OSq.Proofs.CircuitSem6": {"C02": None},
     "OSq.Proofs.CircuitSem7": {"C02": None},
     "OSq.Proofs.CircuitSem8": {"C06": None},
+    "OSq.Proofs.CheckIff": {"C16": None, "C06": ["OSq.checkGateReplacement", "OSq.lift_injective", "OSq.equivPhase_iff_crisp"], "C17": ["OSq.compareGatesWith_iff_exact"]},
+    "OSq.Proofs.Main": {"C01": None, "C05": None},
+    "OSq.Proofs.Main2": {"C01": None, "C05": None},
+    "OSq.Proofs.RoundTrip": {"C04": None, "C12": None, "C20": None},
     "OSq.Proofs.GateTable": {"C07": None},
     "OSq.Proofs.Shape": {"C10": None},
     "OSq.Proofs.Equality": {"C16": None, "C17": ["OSq.compare"]},
